@@ -15,10 +15,10 @@ import (
 // C20 — combined scenarios run every component, in order, in setup and in each iteration.
 
 type c20Comp struct {
-	Setup  int `json:"setup"`  // behaviour kind in setup
-	Iter   int `json:"iter"`   // behaviour kind in the iteration function
-	Period int `json:"period"` // the iteration behaviour applies when id % period == 0 (1 = always)
-	Timed  bool `json:"timed"` // the iteration behaviour happens inside a t.Time(...) block
+	Setup  int  `json:"setup"`  // behaviour kind in setup
+	Iter   int  `json:"iter"`   // behaviour kind in the iteration function
+	Period int  `json:"period"` // the iteration behaviour applies when id % period == 0 (1 = always)
+	Timed  bool `json:"timed"`  // the iteration behaviour happens inside a t.Time(...) block
 }
 
 type c20Params struct {
